@@ -22,6 +22,7 @@ type specFinding struct {
 
 type loadSpecState struct {
 	wfChecked, closedChecked int
+	mergedChecked            int
 	genValid, genFault       int
 	agreeAccept, agreeReject int
 	findings                 map[string]*specFinding
@@ -114,6 +115,11 @@ func (c *Ctx) specLoad(cases []LoadCase) {
 		reqs = append(reqs, "wf "+cs.Doc)
 		kind = append(kind, 'w')
 		idx = append(idx, i)
+		// the hypothesis `MergedDoc` of the completeness theorem C07_load_complete must hold of every
+		// document the real parser merged (prelude = source 0 first, no built-in extension)
+		reqs = append(reqs, "merged "+cs.Doc)
+		kind = append(kind, 'm')
+		idx = append(idx, i)
 		if strings.HasPrefix(cs.GoObs, "(") {
 			reqs = append(reqs, "closed "+cs.GoObs)
 			kind = append(kind, 'c')
@@ -126,6 +132,13 @@ func (c *Ctx) specLoad(cases []LoadCase) {
 		fails, ok := failingClauses(r)
 		if !ok {
 			st.add("spec-op-failed:"+r, cs.Sources, r)
+			continue
+		}
+		if kind[k] == 'm' {
+			st.mergedChecked++
+			if len(fails) > 0 {
+				st.add("merged-document-shape-violated:"+strings.Join(fails, "+"), cs.Sources, r)
+			}
 			continue
 		}
 		if kind[k] == 'c' {
@@ -179,6 +192,7 @@ func (c *Ctx) specLoadSummary() {
 	st := c.lss()
 	fmt.Printf("spec: wf compared on %d documents (agree accept %d, agree reject %d); closed/relations/builtins judged on %d loaded schemas\n",
 		st.wfChecked, st.agreeAccept, st.agreeReject, st.closedChecked)
+	fmt.Printf("spec: MergedDoc (hypothesis of C07_load_complete) evaluated on %d merged documents\n", st.mergedChecked)
 	fmt.Printf("spec: expectations judged on %d valid-by-construction and %d single-fault schemas\n", st.genValid, st.genFault)
 	sigs := make([]string, 0, len(st.findings))
 	for s := range st.findings {
